@@ -660,3 +660,58 @@ func (ix *PkgIndex) mustEffect(fn *FuncInfo, pred func(ast.Node) bool) func(n as
 		return false
 	}
 }
+
+// pureDelegate: fn's body is the single statement `return target(p1, …, pn)` (or the call alone for a function without
+// results) where target is a declared function of the package called on the receiver itself or on a field path of it, and the
+// arguments are exactly fn's parameters in order. Returns target, or nil.
+func (ix *PkgIndex) pureDelegate(fn *FuncInfo) *FuncInfo {
+	if fn == nil || fn.Lit != nil || fn.Body() == nil || len(fn.Body().List) != 1 {
+		return nil
+	}
+	info := fn.Info()
+	var call *ast.CallExpr
+	switch s := fn.Body().List[0].(type) {
+	case *ast.ReturnStmt:
+		if len(s.Results) != 1 {
+			return nil
+		}
+		call, _ = unparen(s.Results[0]).(*ast.CallExpr)
+	case *ast.ExprStmt:
+		call, _ = unparen(s.X).(*ast.CallExpr)
+	}
+	if call == nil || call.Ellipsis.IsValid() {
+		return nil
+	}
+	t := ix.declByObj(callee(info, call))
+	if t == nil || t == fn {
+		return nil
+	}
+	sig := fn.Obj.Type().(*types.Signature)
+	if len(call.Args) != sig.Params().Len() {
+		return nil
+	}
+	for i, a := range call.Args {
+		if !sameVar(info, a, sig.Params().At(i)) {
+			return nil
+		}
+	}
+	// called on the receiver or a field path rooted at it
+	if fn.Recv() != nil {
+		recv, _ := methodCall(info, call)
+		if recv == nil {
+			return nil
+		}
+		root := recv
+		for {
+			if sel, ok := unparen(root).(*ast.SelectorExpr); ok {
+				root = sel.X
+				continue
+			}
+			break
+		}
+		if !sameVar(info, root, fn.Recv()) {
+			return nil
+		}
+	}
+	return t
+}
